@@ -35,6 +35,9 @@ type FileSpec struct {
 	// CorruptLink: in the corrupted run the file has been replaced by a symbolic link with this
 	// target (root-relative; a path that does not exist = dangling, a directory = every read fails).
 	CorruptLink string `json:"corrupt_link,omitempty"`
+	// CorruptFifo: in the corrupted run the file has been replaced by a named pipe without a
+	// writer: open(2) blocks forever (modelled: an extractor that opens it is reported at once).
+	CorruptFifo bool `json:"corrupt_fifo,omitempty"`
 }
 
 // Order is the extractor order of the configuration: all enabled extractors sorted by name
@@ -55,9 +58,13 @@ type RunSpec struct {
 	Disk    scan.DiskPlan `json:"disk"`
 	// ListKey != 0: every directory lists its entries in the order of a keyed hash of their names
 	// (0 = sorted by name).  The listing order is the simulated disk's decision, part of the scenario.
-	ListKey      uint64 `json:"list_key,omitempty"`
-	ReadSymlinks bool   `json:"read_symlinks,omitempty"`
-	CancelAt     int    `json:"cancel_at"` // -1 never; sim: seam event index; real: index of the Extract call
+	ListKey uint64 `json:"list_key,omitempty"`
+	// NoSeek: file handles implement io.ReaderAt (the FS contract) but not io.Seeker.
+	NoSeek bool `json:"no_seek,omitempty"`
+	// MaxFileSize of the scan configuration (0 = none).
+	MaxFileSize  int  `json:"max_file_size,omitempty"`
+	ReadSymlinks bool `json:"read_symlinks,omitempty"`
+	CancelAt     int  `json:"cancel_at"` // -1 never; sim: seam event index; real: index of the Extract call
 	// CancelOn (sim): cancel when the K-th occurrence of (Op, Path) is recorded, e.g. the 3rd read
 	// of an rpm database = in the middle of GetRealPath's temporary copy.
 	CancelOn *scan.Fault `json:"cancel_on,omitempty"`
@@ -341,6 +348,10 @@ func buildTree(spec *RunSpec, corrupt bool) (*scan.Node, int, error) {
 		if d == nil || d.Lookup(path.Base(p)) != nil {
 			continue
 		}
+		if corrupt && f.CorruptFifo {
+			d.Children = append(d.Children, &scan.Node{Name: path.Base(p), Kind: "fifo"})
+			continue
+		}
 		if corrupt && f.CorruptLink != "" {
 			d.Children = append(d.Children, &scan.Node{Name: path.Base(p), Kind: "symlink", Target: path.Clean(f.CorruptLink)})
 			continue
@@ -414,7 +425,7 @@ func runScan(spec *RunSpec, corrupt bool, sb *sandbox, after func(ext, p string)
 	h.readLimit = 64 * (total + 4096)
 	h.openLimit = 64 + 8*obs.Nodes
 	caps := &plugin.Capabilities{OS: osOf(spec.OS), Network: plugin.NetworkOffline, RunningSystem: spec.Running, DirectFS: spec.Mode == "real"}
-	cfg := &scalibr.ScanConfig{Capabilities: caps, ReadSymlinks: spec.ReadSymlinks}
+	cfg := &scalibr.ScanConfig{Capabilities: caps, ReadSymlinks: spec.ReadSymlinks, MaxFileSize: spec.MaxFileSize}
 	for _, e := range enabledExtractors(caps, spec.Order) {
 		obs.Enabled = append(obs.Enabled, e.Name())
 		cfg.FilesystemExtractors = append(cfg.FilesystemExtractors, &wrapped{Extractor: e, h: h})
@@ -428,7 +439,7 @@ func runScan(spec *RunSpec, corrupt bool, sb *sandbox, after func(ext, p string)
 	} else {
 		plan := spec.Disk
 		sfs = scan.NewSimFS(root, rec, &plan, "")
-		cfg.ScanRoots = []*scalibrfs.ScanRoot{{FS: lockedFS{sfs, &h.fsMu, h}, Path: ""}}
+		cfg.ScanRoots = []*scalibrfs.ScanRoot{{FS: lockedFS{sfs, &h.fsMu, h, spec.NoSeek}, Path: ""}}
 	}
 	ctx, cancel := context.WithCancel(context.Background())
 	defer cancel()
